@@ -58,7 +58,7 @@ class ReadOnly(Facet):
     reps = ("tree", "ge", "sge", "dsge", "stack")
 
     def budget(self, tier):
-        return (60, 8) if tier == "quick" else (400, 16)
+        return (120, 8) if tier == "quick" else (500, 16)
 
     def strategy(self, tier):
         return world_cases(self.flags, reps=self.reps, max_ops=10, with_search=True, depth_extras=(0, 1, 2, 3))
